@@ -26,7 +26,8 @@ SHARDS = 4
 RDMF = {1: "fuel (non-termination)", 2: "access outside a 1 MiB buffer", 4: "payload > 1 MiB (realloc path not modelled)",
         7: "entry size 0", 20: "integer division by zero (SIGFPE)", 21: "signed overflow (UB)", 22: "float->int8 conversion out of range (UB)",
         23: "caller buffer too small / written outside"}
-FAULT_EXPECT = {1: ("TIMEOUT",), 20: ("SIGFPE",), 2: ("ASAN", "SIGSEGV", "SIGBUS", "SIGABRT")}
+# what the harness reports for a model fault (EXIT1 = UBSan's division-by-zero report in the asan build)
+FAULT_EXPECT = {1: ("TIMEOUT",), 20: ("SIGFPE", "EXIT1"), 2: ("ASAN", "SIGSEGV", "SIGBUS", "SIGABRT")}
 READER_OPS = ("ropen", "len", "rd", "rdall", "an", "ut", "udr", "rclose")
 
 
@@ -177,7 +178,8 @@ def crafted(rng, data, n):
     out = []
 
     def interesting(own):
-        return rng.choice([0, 1, own, rng.choice(offs), rng.choice(offs), len(data), len(data) - 32, len(data) + 64, 2**63, 2**64 - 8, 2**31, 24, rng.randrange(0, len(data))])
+        # offsets in [2^44 - 4096, 2^63) are avoided: lseek fails there on ext4 (s_maxbytes) and succeeds on tmpfs; the model (RepairRaw.rp_bk_fseek) is tmpfs
+        return rng.choice([0, 1, own, rng.choice(offs), rng.choice(offs), len(data), len(data) - 32, len(data) + 64, 2**63, 2**64 - 8, 2**31, 2**43, 24, rng.randrange(0, len(data))])
 
     def emit(label, img):
         ops = patch_ops(data, img)
@@ -246,7 +248,7 @@ def crafted(rng, data, n):
             if rng.random() < 0.5:
                 struct.pack_into("<Q", img, po, interesting(off))
             else:
-                struct.pack_into("<q", img, po, rng.choice([-1, -2**63, 2**63 - 1, struct.unpack_from("<q", data, po)[0] + rng.choice([1, -1, 1000, -1000, 2**32])]))
+                struct.pack_into("<q", img, po, rng.choice([-1, -2**63, 2**43 - 1, struct.unpack_from("<q", data, po)[0] + rng.choice([1, -1, 1000, -1000, 2**32])]))
             lab = "payload_word"
         else:
             continue
@@ -260,6 +262,26 @@ def _model(lines, timeout=3000):
     cmd = ["bash", "-c", "ulimit -s 4000000 2>/dev/null || ulimit -s unlimited 2>/dev/null; exec \"$0\" reader",
            os.path.join(vlib.BUILD, "jlsmodel")]
     return vlib._run_sharded(cmd, lines, SHARDS, timeout)
+
+
+def scratch_dir(ctx):
+    """the harness works on copies in its scratch directory.  lseek to offsets in [2^44 - 4096, 2^63) fails on ext4 (EINVAL: beyond
+    s_maxbytes) and succeeds on tmpfs; the model's rp_bk_fseek (RepairRaw.v) is the tmpfs behaviour, so tmpfs is used when there is one
+    (only CRC-valid files with absurd offsets can tell the difference: JLS_ERROR_IO instead of JLS_ERROR_EMPTY)."""
+    d = getattr(ctx, "rdm_scratch", None)
+    if d is None:
+        import tempfile
+        base = "/dev/shm" if os.path.isdir("/dev/shm") and os.access("/dev/shm", os.W_OK) else ctx.tmp
+        d = tempfile.mkdtemp(prefix="rdm_scratch_", dir=base)
+        ctx.rdm_scratch = d
+    return d
+
+
+def scratch_cleanup(ctx):
+    import shutil
+    if getattr(ctx, "rdm_scratch", None):
+        shutil.rmtree(ctx.rdm_scratch, ignore_errors=True)
+        ctx.rdm_scratch = None
 
 
 def _impl(scripts, scratch, variant, timeout_s=6):
@@ -276,6 +298,7 @@ def compare_ops(rops, impl_toks, fault, mline):
     if mline.startswith("PROCFAIL") or "MODELFAIL" in mline:
         return "model run failed: " + mline[:200], cls
     mt = mline.split(";")
+    approx_seen = False
     for i, op in enumerate(rops):
         m = mt[i] if i < len(mt) else op.split()[0] + " ?"
         a = impl_toks[i] if i < len(impl_toks) else None
@@ -303,7 +326,11 @@ def compare_ops(rops, impl_toks, fault, mline):
                 i, op, RDMF.get(mf, mf), ("faults with " + fault) if fault else "returns '%s'" % (a or "")[:100]), cls
         if a is None:
             return "op #%d %s: the implementation stopped (%s); model: '%s'" % (i, op, fault or "no output", m[:120]), cls
+        if stale and approx_seen:
+            cls.add("stale_after_approx(skipped)")     # the buffer holds a block the oracle did not compute: what lies beyond the payload differs
+            continue
         if approx:
+            approx_seen = True
             cls.add("approx")
             n = 3 if op.startswith("rd") else len(m.split())
             if a.split()[:n] != m.split()[:n]:
@@ -320,8 +347,7 @@ def run_cases(ctx, cases, variant="plain"):
     """cases: list of dict(ops=writer ops, cor=[file ops], rops=[reader ops]).  Adds diff / classes / impl / model to each."""
     d = os.path.join(ctx.tmp, "rdm")
     os.makedirs(d, exist_ok=True)
-    scratch = os.path.join(ctx.tmp, "scratch_rdm")
-    os.makedirs(scratch, exist_ok=True)
+    scratch = scratch_dir(ctx)
     base = getattr(ctx, "rdm_seq", 0)
     scripts = []
     for i, c in enumerate(cases):
@@ -363,8 +389,7 @@ def probe_files(ctx, progs, variant="plain"):
     """run every writer program once, keep the bytes of its file (for the corruption generators)"""
     d = os.path.join(ctx.tmp, "rdm")
     os.makedirs(d, exist_ok=True)
-    scratch = os.path.join(ctx.tmp, "scratch_rdm")
-    os.makedirs(scratch, exist_ok=True)
+    scratch = scratch_dir(ctx)
     paths = [os.path.join(d, "probe%d.jls" % i) for i in range(len(progs))]
     _impl([";".join(list(p["ops"]) + ["wclose", "save " + paths[i]]) for i, p in enumerate(progs)], scratch, variant)
     for p, path in zip(progs, paths):
@@ -395,7 +420,10 @@ def run_rdm(ctx, variant="plain", max_file=400000):
                               reader_ops(rng, p["sigs"], ctx.tier, nwin=2) if not o.startswith("rdall") and o != "udr"] + ["udr 40", "rclose"]
             for lab, cor in crafted(rng, p["data"], p.get("ncraft", 24 if ctx.tier == "quick" else 120)):
                 cases.append(dict(ops=p["ops"], cor=cor, rops=r3, label="crafted_" + lab, gen=p["gen"], size=len(p["data"])))
-    run_cases(ctx, cases, variant)
+    try:
+        run_cases(ctx, cases, variant)
+    finally:
+        scratch_cleanup(ctx)
     dist, outcome = {}, {}
     nv = 0
     nops = 0
